@@ -57,6 +57,21 @@ NAMES = ["p256", "p384", "p521", "ed25519", "ed448"]
 ALG_OF = {"p256": "es-256", "p384": "es-384", "p521": "es-521", "ed25519": "eddsa", "ed448": "eddsa"}
 
 
+# file key name (as given to --key-name) -> harness identity
+DOTTED = {"aes.v2": "aes_dotv2", "solo.aes": "aes_solo", "aes.2024-06.rel": "aes_rel"}
+for _n in NAMES:
+    DOTTED[f"{_n}.v2"] = f"{_n}_dotv2"
+    DOTTED[f"solo.{_n}"] = f"{_n}_solo"
+    DOTTED[f"solo.{_n}-der"] = f"{_n}_solo"
+
+
+def identity(key_name: str) -> str:
+    """harness identity behind a key name of the main key directory"""
+    if key_name in DOTTED:
+        return DOTTED[key_name]
+    return key_name.replace("_der", "")
+
+
 def key_dir_alt() -> str:
     """a second key directory: the SAME file names hold OTHER keys (identity <name>_alt); used as a per-node context."""
     d = os.path.join(core.run_scratch(), "keys_alt")
@@ -99,6 +114,18 @@ def key_dir(_unused=None) -> str:
     for n in ("aes", "aes_b"):
         with open(os.path.join(tmp, f"{n}.bin"), "wb") as fh:
             fh.write(aes_key(n))
+    # key names containing dots: "<n>.v2" lives next to "<n>" (which holds ANOTHER key), "solo.<n>" has no sibling
+    for fname, ident in DOTTED.items():
+        kind = ident.split("_")[0]
+        if kind == "aes":
+            with open(os.path.join(tmp, fname + ".bin"), "wb") as fh:
+                fh.write(aes_key(ident))
+        elif fname.endswith("-der"):
+            with open(os.path.join(tmp, fname + ".der"), "wb") as fh:
+                fh.write(der(ident))
+        else:
+            with open(os.path.join(tmp, fname + ".pem"), "wb") as fh:
+                fh.write(pem(ident))
     open(os.path.join(tmp, ".complete"), "w").close()
     try:
         os.rename(tmp, d)
